@@ -70,11 +70,205 @@ type PathState struct {
 	msg         string
 	forks       int
 	vars        map[string]int
-	assumptionsHit map[string]bool
+	dom         map[string]*[4]uint64 // allowed values of 8-bit variables implied by single-variable conjuncts of pc
+	quickHits   int
+	known       map[string]bool // structural keys of small conditions already decided on this path
+}
+
+// termKey renders a canonical structural key for small terms ("" when too large).
+func termKey(t *Term) string {
+	n := 0
+	var sb strings.Builder
+	var walk func(x *Term) bool
+	walk = func(x *Term) bool {
+		n++
+		if n > 48 {
+			return false
+		}
+		switch x.op {
+		case OConst:
+			fmt.Fprintf(&sb, "#%d:%d", x.c, x.w)
+			return true
+		case OVar:
+			sb.WriteString(x.name)
+			return true
+		}
+		sb.WriteByte('(')
+		sb.WriteString(opNames[x.op])
+		if x.op == OExtract || x.op == OZExt || x.op == OSExt {
+			fmt.Fprintf(&sb, "_%d_%d", x.hi, x.c)
+		}
+		for _, a := range x.a {
+			sb.WriteByte(' ')
+			if !walk(a) {
+				return false
+			}
+		}
+		sb.WriteByte(')')
+		return true
+	}
+	if !walk(t) {
+		return ""
+	}
+	return sb.String()
+}
+
+func (ps *PathState) remember(t *Term, val bool) {
+	if t.op == ONot {
+		ps.remember(t.a[0], !val)
+		return
+	}
+	if t.op == OAnd && val {
+		for _, a := range t.a {
+			ps.remember(a, true)
+		}
+		return
+	}
+	if t.op == OOr && !val {
+		for _, a := range t.a {
+			ps.remember(a, false)
+		}
+		return
+	}
+	if k := termKey(t); k != "" {
+		if ps.known == nil {
+			ps.known = map[string]bool{}
+		}
+		ps.known[k] = val
+		if t.op == OEq {
+			// symmetric
+			if k2 := termKey(&Term{op: OEq, a: []*Term{t.a[1], t.a[0]}}); k2 != "" {
+				ps.known[k2] = val
+			}
+		}
+	}
+}
+
+func (ps *PathState) recall(t *Term) (bool, bool) {
+	neg := false
+	for t.op == ONot {
+		t = t.a[0]
+		neg = !neg
+	}
+	if ps.known == nil {
+		return false, false
+	}
+	k := termKey(t)
+	if k == "" {
+		return false, false
+	}
+	v, ok := ps.known[k]
+	return v != neg, ok
 }
 
 func (in *Interp) addPC(t *Term) {
 	in.ps.pc = append(in.ps.pc, t)
+	in.learn(t)
+	in.ps.remember(t, true)
+}
+
+// singleByteVar reports the one variable of t when t mentions exactly one variable, of width <= 8,
+// and is small enough to be tabulated.
+func singleByteVar(t *Term) (string, int, bool) {
+	name, w, n, nodes := "", 0, 0, 0
+	var walk func(x *Term) bool
+	walk = func(x *Term) bool {
+		nodes++
+		if nodes > 64 {
+			return false
+		}
+		if x.op == OVar {
+			if n == 0 {
+				name, w, n = x.name, x.w, 1
+			} else if x.name != name {
+				return false
+			}
+			return true
+		}
+		for _, a := range x.a {
+			if !walk(a) {
+				return false
+			}
+		}
+		return true
+	}
+	if !walk(t) || n == 0 || w > 8 || w == 0 {
+		return "", 0, false
+	}
+	return name, w, true
+}
+
+func (ps *PathState) domain(name string, w int) *[4]uint64 {
+	if ps.dom == nil {
+		ps.dom = map[string]*[4]uint64{}
+	}
+	d, ok := ps.dom[name]
+	if !ok {
+		d = &[4]uint64{}
+		for v := 0; v < 1<<uint(w); v++ {
+			d[v>>6] |= 1 << uint(v&63)
+		}
+		ps.dom[name] = d
+	}
+	return d
+}
+
+// learn narrows the value set of a byte variable when a single-variable conjunct joins the path condition.
+func (in *Interp) learn(t *Term) {
+	if t.op == OAnd {
+		for _, a := range t.a {
+			in.learn(a)
+		}
+		return
+	}
+	name, w, ok := singleByteVar(t)
+	if !ok {
+		return
+	}
+	d := in.ps.domain(name, w)
+	m := Model{}
+	for v := 0; v < 1<<uint(w); v++ {
+		if d[v>>6]&(1<<uint(v&63)) == 0 {
+			continue
+		}
+		m[name] = uint64(v)
+		if evalTerm(t, m) == 0 {
+			d[v>>6] &^= 1 << uint(v&63)
+		}
+	}
+}
+
+// quick decides a single-variable condition from the variable's value set: 1 = always true, 0 = always
+// false, -1 = both possible / not applicable. Sound because the value set over-approximates pc.
+func (in *Interp) quick(t *Term) int {
+	name, w, ok := singleByteVar(t)
+	if !ok {
+		return -1
+	}
+	d := in.ps.domain(name, w)
+	m := Model{}
+	sawT, sawF := false, false
+	for v := 0; v < 1<<uint(w); v++ {
+		if d[v>>6]&(1<<uint(v&63)) == 0 {
+			continue
+		}
+		m[name] = uint64(v)
+		if evalTerm(t, m) != 0 {
+			sawT = true
+		} else {
+			sawF = true
+		}
+		if sawT && sawF {
+			return -1
+		}
+	}
+	switch {
+	case sawT && !sawF:
+		return 1
+	case sawF && !sawT:
+		return 0
+	}
+	return -1
 }
 
 // check asks the solver whether pc ∧ extra is satisfiable.
@@ -123,6 +317,14 @@ func (in *Interp) decide(t *Term) bool {
 		panic("decide on non-bool term")
 	}
 	ps := in.ps
+	if q := in.quick(t); q >= 0 {
+		ps.quickHits++
+		return q == 1
+	}
+	if v, ok := ps.recall(t); ok {
+		ps.quickHits++
+		return v
+	}
 	n := len(ps.taken)
 	if n < len(ps.prefix) {
 		d := ps.prefix[n] != 0
